@@ -133,6 +133,85 @@ def roundtrip_events(tid, ps0, rnd):
                'case': {'ps0': ps0, 'ps': ps, 'how': 'fcall'}}
 
 
+# texts whose characters matter to the helpers' own templates: braces (str.format), a parameter spelled 'self', quotes
+SPECIAL_TEXTS = ["a: '{'", "a: '}', b", "a: {}", "a: {0}, b=1", "a: '{0}', *, b: '{b}'=2", "self: 1", "self, *, a", "a, self=3", "self: 'x', *args, b: 2 = 5, **kwargs"]
+
+
+def special_events():
+    """the modifiers-based spellings must give what the native spelling gives (up to the order of keyword-only parameters), and the function
+    made by f must take and return its arguments by name, for texts containing characters the code templates use themselves"""
+    from sigtools import support
+    ids = {}
+
+    def proj(sig):
+        out = []
+        for p in sig.parameters.values():
+            d = p.default is not p.empty
+            try:
+                av = repr(p.upgraded_annotation.source_value())
+            except Exception as ex:  # noqa
+                av = 'ERR:' + type(ex).__name__
+            out.append({'n': p.name, 'k': absig.KIND[p.kind], 'd': d, 'dv': ids.setdefault(('d', repr(p.default)), len(ids) + 1) if d else 0,
+                        'an': ids.setdefault(('a', av), len(ids) + 1) if p.annotation is not p.empty else 0})
+        return out
+    for ti, text in enumerate(SPECIAL_TEXTS):
+        for oi, opts in enumerate(OPTS):
+            if not any(opts.values()):
+                continue
+            for future in (False, True):
+                kw = dict(future_features=('annotations',) if future else ())
+                e = {'tid': 'special/%d-%d-%d' % (ti, oi, future), 'op': 'roundtrip', 'how': 's', 'retwant': 0, 'retgot': 0, 'upto_kwo_order': True,
+                     'case': {'ps0': [], 'ps': [], 'text': text, 'opts': opts, 'future': future, 'how': 'special'}}
+                try:
+                    native = proj(support.s(text, **kw))
+                except Exception:  # noqa  (the native spelling itself cannot read this text: nothing to compare with)
+                    continue
+                e['want'] = native
+                try:
+                    e.update(tag='ok', got=proj(support.s(text, **dict(kw, **opts))))
+                except Exception as ex:  # noqa
+                    e.update(tag='raise:' + type(ex).__name__, got=[])
+                yield e
+    # f(...)(<every parameter by keyword>) through the modifiers spellings
+    for ti, text in enumerate(SPECIAL_TEXTS):
+        for oi, opts in enumerate(OPTS):
+            if opts['use_modifiers_annotate'] or not any(opts.values()):
+                continue
+            try:
+                native = support.s(text)
+            except Exception:  # noqa
+                continue
+            names = [p.name for p in native.parameters.values() if p.kind not in (p.VAR_POSITIONAL, p.VAR_KEYWORD)]
+            e = {'tid': 'special-f/%d-%d' % (ti, oi), 'op': 'roundtrip', 'how': 'f', 'want': [], 'got': [], 'retwant': 0, 'retgot': 0, 'upto_kwo_order': True,
+                 'case': {'ps0': [], 'ps': [], 'text': text, 'opts': opts, 'how': 'special-f'}}
+            try:
+                r = support.f(text, **opts)(**{n: n for n in names})
+                e['tag'] = 'ok' if all(r.get(n) == n for n in names) else 'raise:WrongMapping'
+            except Exception as ex:  # noqa
+                e['tag'] = 'raise:' + type(ex).__name__
+            yield e
+
+
+def value_text_events():
+    """func_from_sig on real signatures whose default VALUES print with a comma or with ' -> ' (known finding: the text is split naively)"""
+    import inspect
+    from sigtools import support
+    import sigtools
+    subjects = [('tuple-default', lambda a=(1, 2): 0), ('arrow-string-default', lambda a='x -> y', b=1: 0), ('dict-default', lambda a={'k': 1, 'l': 2}: 0),
+                ('plain', lambda a=1, b='x': 0)]
+    for lab, fn in subjects:
+        src = inspect.signature(fn)
+        e = {'tid': 'valuetext/' + lab, 'op': 'roundtrip', 'how': 'func_from_sig', 'want': [], 'got': [], 'retwant': 0, 'retgot': 0, 'upto_kwo_order': False,
+             'case': {'ps0': [], 'ps': [], 'text': str(src), 'opts': {}, 'how': 'valuetext', 'label': lab}}
+        try:
+            back = sigtools.signature(support.func_from_sig(src))
+            same = [(p.name, p.kind, repr(p.default)) for p in back.parameters.values()] == [(p.name, p.kind, repr(p.default)) for p in src.parameters.values()]
+            e['tag'] = 'ok' if same else 'raise:Differs'
+        except Exception as ex:  # noqa
+            e['tag'] = 'raise:' + type(ex).__name__
+        yield e
+
+
 def gen_for(U, n, seed):
     def gen(shard, nshards):
         rnd = random.Random(seed)
@@ -143,19 +222,34 @@ def gen_for(U, n, seed):
             if k % nshards == shard:
                 for e in roundtrip_events('rt/%d' % i, U[i], r2):
                     yield e
+        if shard == 0:
+            for e in special_events():
+                yield e
+            for e in value_text_events():
+                yield e
     return gen
 
 
 def describe(e, case):
     key = json.dumps([case.get('ps'), case.get('opts'), case.get('future'), case.get('how')], sort_keys=True)
+    if 'text' in case:
+        return json.dumps([case['text'], case.get('opts'), case.get('future'), case.get('how')], sort_keys=True), False, '%s of (%s) %s -> %s' % (
+            case.get('how'), case['text'], {k: v for k, v in (case.get('opts') or {}).items() if v}, e.get('tag'))
     return key, False, '%s of (%s) %s -> %s' % (case.get('how'), text_of(case['ps']), {k: v for k, v in (case.get('opts') or {}).items() if v}, e.get('tag', 'calls'))
+
+
+def classify(tid, clause, case):
+    # known finding: read_sig splits the parameter text on every comma and func_from_sig cuts at the last ' -> ': values whose text contains them
+    if clause == 'C20_RoundTripRaised' and case and case.get('how') == 'valuetext' and case.get('label') in ('tuple-default', 'arrow-string-default', 'dict-default'):
+        return 'read-sig-splits-inside-values'
+    return clause
 
 
 def run_part(check, tier, seed, scratch):
     quick = tier == 'quick'
     U = tlc.export_universe(scratch, 'abc', ['args'], ['kwargs'], 3)
     n = 260 if quick else len(U)
-    run_trace_leg(check, scratch, 'roundtrip', gen_for(U, n, seed), None, module='Trace_PyBind', describe=describe)
+    run_trace_leg(check, scratch, 'roundtrip', gen_for(U, n, seed), None, module='Trace_PyBind', describe=describe, classify=classify)
     check.cov['roundtrip_signatures'] = n
 
 
